@@ -243,7 +243,7 @@ def build():
     v.rewrite_re('R8', r'(p3_batch_stark::verify_batch\(.*?\))\s*\.map_err\(\|e\| BatchStarkProverError::Verify\(format!\("\{e:\?\}"\)\)\)',
                  r'(match \1 { Ok(()) => Ok(()), Err(e_) => Err(BatchStarkProverError::Verify(errmsg())) })', min_count=1, flags_dotall=True)
     # the preprocessed-binding check (fix 069e8d7): R5 / R6 / R8 forms, each applies where the idiom occurs
-    v.rewrite_re('R5', r'for \((\w+), (\w+)\) in airs\.iter\(\)\.enumerate\(\) \{', r'for \1 in 0..airs.len() { let \2 = &airs[\1];', min_count=0)
+    v.rewrite_re('R5', r'for \((\w+), (\w+)\) in airs\.iter\(\)\.enumerate\(\) \{', r'for \1 in 0..airs.len() { let \2 = &airs[\1]; /*@widths*/', min_count=0)
     v.rewrite_re('R11', r'BaseAir::<BaseVal>::preprocessed_width\((\w+)\)', r'\1.preprocessed_width()', min_count=0)
     v.rewrite_re('R6', r'common\s*\.preprocessed\s*\.as_ref\(\)\s*\.and_then\(\|g\| g\.instances\.get\((\w+)\)\)\s*\.and_then\(\|meta\| meta\.as_ref\(\)\)\s*\.map_or\(0, \|meta\| meta\.width\)', r'declared_width(common, \1)', min_count=0)
     v.rewrite_re('R8', r'BatchStarkProverError::Verify\(format!\(\s*"preprocessed width mismatch[^"]*"\s*\)\)', 'BatchStarkProverError::Verify(errmsg())', min_count=0, flags_dotall=True)
@@ -259,7 +259,7 @@ def build():
                 && widths_ok::<D>(common.preprocessed, {AIRS})
                 && batch_accepts::<D>(self.config, {AIRS}, proof.proof, empty3() + BatchStarkProver::dyn_pvs(*proof, {N}), common.preprocessed, lookups_of({AIRS}, self.config.zk)))''')
     v.ensures('a_binding_that_does_not_declare_the_widths_of_the_rebuilt_airs_is_rejected', f'ret is Ok ==> widths_ok::<D>(common.preprocessed, {AIRS})')
-    WL = re.search(r'for (\w+) in 0\.\.airs\.len\(\) \{ let (\w+) = &airs\[\1\];', v.body)
+    WL = re.search(r'for (\w+) in 0\.\.airs\.len\(\) \{ let (\w+) = &airs\[\1\]; /\*@widths\*/', v.body)
     if WL:
         wi = WL.group(1)
         lo_ = v._loop_open(f'for {wi} in 0..airs.len()')
